@@ -103,23 +103,28 @@ fn find_selector(e: &Expression<F>) -> Option<usize> {
     }
 }
 
-fn configured() -> ConstraintSystem<F> {
+fn configured(sha512: bool) -> ConstraintSystem<F> {
     let mut cs = ConstraintSystem::<F>::default();
-    let _ = <Sha256Circuit as Circuit<F>>::configure(&mut cs);
+    if sha512 {
+        let _ = <Sha512Circuit as Circuit<F>>::configure(&mut cs);
+    } else {
+        let _ = <Sha256Circuit as Circuit<F>>::configure(&mut cs);
+    }
     cs
 }
 
-/// `h-c07 --dump-sha-gates FILE`.
-pub fn dump_gates(path: &str) {
-    let cs = configured();
+/// `h-c07 --dump-sha-gates FILE` (SHA-256 chip) / `h-c07 --dump-sha512-gates FILE` (SHA-512 chip).
+pub fn dump_gates(path: &str, sha512: bool) {
+    let cs = configured(sha512);
+    let names: &[(&str, &str)] = if sha512 { &SHA512_GATES } else { &SHA256_GATES };
     let gates: Vec<Value> = cs
         .gates()
         .iter()
-        .filter(|g| SHA256_GATES.iter().any(|(n, _)| *n == g.name()))
+        .filter(|g| names.iter().any(|(n, _)| *n == g.name()))
         .map(|g| {
             json!({
                 "name": g.name(),
-                "short": SHA256_GATES.iter().find(|(n, _)| *n == g.name()).unwrap().1,
+                "short": names.iter().find(|(n, _)| *n == g.name()).unwrap().1,
                 "polys": g.polynomials().iter().map(expr_json).collect::<Vec<_>>(),
             })
         })
@@ -361,6 +366,42 @@ fn run_search(ctx: &mut Ctx) {
     }
 }
 
+/// Same targeted sweep on the SHA-512 chip (fewer regions: `prepare_message_word` of block word 0, the
+/// first schedule step, round 0, the end of the state addition). The gates of this chip read
+/// rows `-1..+3`, hence the larger re-check radius.
+fn run_search512(ctx: &mut Ctx) {
+    use crate::circuits::{cell_value, mock_run, tamper_accepts, Mock};
+    let msg: Vec<u8> = (0..5u8).map(|j| j.wrapping_mul(41).wrapping_add(7)).collect();
+    let t = match mzkh::catch(|| record512(&msg)) {
+        Ok(t) => t,
+        Err(_) => return,
+    };
+    let circuit = Sha512Circuit::new(msg.clone());
+    let Mock::Ran { mut prover, ok: true, .. } = mock_run(&circuit, 14) else { return };
+    let n = t.regions.len();
+    let mut picked: Vec<usize> = vec![];
+    picked.extend(0..1.min(n)); // prepW of block word 0
+    picked.extend((16..19).filter(|k| *k < n)); // first schedule step (σ₀, σ₁, prepW)
+    picked.extend((208..214).filter(|k| *k < n)); // round 0
+    picked.extend((n.saturating_sub(2)..n).filter(|k| *k >= 214)); // the last two regions of the state addition
+    for k in picked {
+        let kind = t.regions[k].split(' ').next().unwrap_or("?").to_string();
+        for &(c, r) in &t.cells_abs[k] {
+            let Some(v) = cell_value(&prover, c, r) else { continue };
+            ctx.count("search:sha512:tamper:plus1");
+            let nv = v + F::from(1u64);
+            if tamper_accepts(&mut prover, &[(c, r, nv)], 4) {
+                ctx.oracle_fail(
+                    &format!("sha512:wiring:unconstrained-cell:{kind}:col={c}"),
+                    "SHA-512 circuit accepts a modified advice cell of a chip region (cell not bound by gate, lookup or copy constraint)",
+                    json!({"message": crate::bytes::hex(&msg), "chip_region": k, "kind": kind, "column": c, "row": r,
+                           "honest": fe_hex(&v), "forged": fe_hex(&nv), "change": "plus1"}),
+                );
+            }
+        }
+    }
+}
+
 /// The loaded plain-spreaded table, one line per tag (rows in table order).
 fn emit_table(ctx: &mut Ctx, prefix: &str, table: &[Vec<F>]) {
     let mut by_tag: Vec<(String, Vec<String>)> = vec![];
@@ -404,6 +445,13 @@ fn run512(ctx: &mut Ctx) {
                 }
             }
             ctx.count_n("sha512:trace:regions-recorded", t.regions.len() as u64);
+            // the REAL honest witness must satisfy the model's `Sat` of every region (hypothesis of the
+            // SHA-512 soundness theorems not stronger than the real circuit)
+            if i == 0 && (*nblocks == 1 || !ctx.quick()) {
+                for (k, w) in t.witness.iter().enumerate() {
+                    ctx.case("sha512:trace:honest-witness-sat", true, &format!("sha512sat {nblocks} {k} {w}"), "ok");
+                }
+            }
             if !table_done {
                 table_done = true;
                 emit_table(ctx, "sha512", &t.table);
@@ -415,6 +463,7 @@ fn run512(ctx: &mut Ctx) {
 pub fn run(ctx: &mut Ctx) {
     if ctx.search() {
         run_search(ctx);
+        run_search512(ctx);
     }
     run512(ctx);
     // the chip regions depend on the number of blocks only: several lengths per block count
